@@ -11,6 +11,8 @@ mod tape;
 use identity_did::CoreDID;
 use identity_eddsa_verifier::EdDSAJwsVerifier;
 use identity_storage::JwkStorage;
+use identity_storage::JwkStorageBbsPlusExt;
+use jsonprooftoken::jpa::algs::ProofAlgorithm;
 use identity_storage::KeyId;
 use identity_storage::KeyIdStorage;
 use identity_storage::KeyStorageErrorKind;
@@ -49,6 +51,60 @@ fn verify(pk: &Jwk, data: &[u8], sig: &[u8]) -> bool {
     .is_ok()
 }
 
+/// Own base64url decoding (no padding, URL-safe alphabet) for the verification helpers.
+fn unb64(s: &str) -> Option<Vec<u8>> {
+  let mut out = Vec::with_capacity(s.len() * 3 / 4);
+  let (mut acc, mut bits) = (0u32, 0u32);
+  for c in s.bytes() {
+    let v = match c {
+      b'A'..=b'Z' => c - b'A',
+      b'a'..=b'z' => c - b'a' + 26,
+      b'0'..=b'9' => c - b'0' + 52,
+      b'-' => 62,
+      b'_' => 63,
+      _ => return None,
+    } as u32;
+    acc = (acc << 6) | v;
+    bits += 6;
+    if bits >= 8 {
+      bits -= 8;
+      out.push((acc >> bits) as u8);
+      acc &= (1 << bits) - 1;
+    }
+  }
+  Some(out)
+}
+
+/// BBS+ (BLS12381-SHA256) verification by the harness: zkryptium directly.
+fn bbs_verify(public_jwk: &Jwk, messages: &[Vec<u8>], header: &[u8], sig: &[u8]) -> bool {
+  use zkryptium::bbsplus::ciphersuites::Bls12381Sha256;
+  use zkryptium::bbsplus::keys::BBSplusPublicKey;
+  use zkryptium::schemes::algorithms::BBSplus;
+  use zkryptium::schemes::generics::Signature;
+  let v = serde_json::to_value(public_jwk).unwrap_or_default();
+  let coord = |n: &str| -> Option<[u8; 96]> {
+    v.get(n).and_then(|x| x.as_str()).and_then(unb64).and_then(|b| <[u8; 96]>::try_from(b.as_slice()).ok())
+  };
+  let (Some(x), Some(y)) = (coord("x"), coord("y")) else { return false };
+  let Ok(pk) = BBSplusPublicKey::from_coordinates(&x, &y) else { return false };
+  let Ok(sig80) = <[u8; 80]>::try_from(sig) else { return false };
+  let Ok(signature) = Signature::<BBSplus<Bls12381Sha256>>::from_bytes(&sig80) else { return false };
+  signature.verify(&pk, Some(messages), Some(header)).is_ok()
+}
+
+/// Ed25519 verification by the harness (iota-crypto directly), next to the library's verifier.
+fn verify_own(pk: &Jwk, data: &[u8], sig: &[u8]) -> bool {
+  let x = serde_json::to_value(pk).ok().and_then(|v| v.get("x").and_then(|x| x.as_str().map(str::to_owned)));
+  let Some(pk_bytes) = x.and_then(|x| unb64(&x)) else { return false };
+  let (Ok(pk_arr), Ok(sig_arr)) = (<[u8; 32]>::try_from(pk_bytes.as_slice()), <[u8; 64]>::try_from(sig)) else { return false };
+  let Ok(pk) = crypto::signatures::ed25519::PublicKey::try_from_bytes(pk_arr) else { return false };
+  pk.verify(&crypto::signatures::ed25519::Signature::from_bytes(sig_arr), data)
+}
+
+fn is_bls(j: &Jwk) -> bool {
+  serde_json::to_value(j).ok().and_then(|v| v.get("kty").and_then(|k| k.as_str().map(|k| k == "EC"))).unwrap_or(false)
+}
+
 struct Outcome {
   trace: Vec<String>,
   violations: Vec<(String, String, String)>, // (invariant, signature, message)
@@ -82,7 +138,7 @@ async fn history(storage: &StrongholdStorage, t: &mut Tape) -> Outcome {
         issued[t.choose(issued.len())].clone()
       }
     };
-    match t.weighted(&[4, 2, 4, 4, 3, 3, 2, 2]) {
+    match t.weighted(&[4, 3, 5, 4, 3, 3, 2, 2, 3, 3]) {
       0 => {
         let bad = t.chance(1, 5);
         let (kt, alg) = if bad {
@@ -130,7 +186,7 @@ async fn history(storage: &StrongholdStorage, t: &mut Tape) -> Outcome {
         }
         let sk = crypto::signatures::ed25519::SecretKey::from_bytes(&seed);
         let x = b64(sk.public_key().as_ref());
-        let kind = t.choose(4);
+        let kind = t.choose(7);
         let mut j = serde_json::json!({"kty":"OKP","crv":"Ed25519","alg":"EdDSA","x": x, "d": b64(&seed)});
         match kind {
           1 => {
@@ -140,6 +196,26 @@ async fn history(storage: &StrongholdStorage, t: &mut Tape) -> Outcome {
             j.as_object_mut().unwrap().remove("alg");
           }
           3 => j["alg"] = "ES256".into(),
+          4 => {
+            // `x` is the public key of ANOTHER secret than `d`: signatures made with `d` could never verify under this
+            // JWK's public part
+            let mut other = seed;
+            other[0] ^= 1 + t.byte() % 255;
+            j["x"] = b64(crypto::signatures::ed25519::SecretKey::from_bytes(&other).public_key().as_ref()).into();
+          }
+          5 | 6 => {
+            // a private key of the store's other key type carrying the JWS algorithm (5) or its own proof algorithm (6):
+            // `insert` is the EdDSA entry point, either is refused (the key bytes come from the OS RNG, for which
+            // there is no seam; nothing recorded depends on them)
+            let alg = ProofAlgorithm::BLS12381_SHA256;
+            if let Ok((sk, pk)) = identity_storage::key_storage::bls::generate_bbs_keypair(alg) {
+              let private = identity_storage::key_storage::bls::encode_bls_jwk(&sk, &pk, alg).0;
+              j = serde_json::to_value(&private).unwrap();
+              if kind == 5 {
+                j["alg"] = "EdDSA".into();
+              }
+            }
+          }
           _ => {}
         }
         let r = storage.insert(jwk(j)).await;
@@ -157,24 +233,42 @@ async fn history(storage: &StrongholdStorage, t: &mut Tape) -> Outcome {
       }
       2 => {
         let id = pick_id(t, &issued);
-        let pk = keys.get(&id).cloned().unwrap_or_else(|| jwk(serde_json::json!({"kty":"OKP","crv":"Ed25519","alg":"EdDSA","x": b64(&[7u8; 32])})));
+        let made_up = jwk(serde_json::json!({"kty":"OKP","crv":"Ed25519","alg":"EdDSA","x": b64(&[7u8; 32])}));
+        let ed_others: Vec<Jwk> = keys.iter().filter(|(o, k)| **o != id && !is_bls(k)).map(|(_, k)| k.clone()).collect();
+        let own = keys.get(&id).cloned();
+        // the public JWK handed in: the key's own one; for the key id of a BBS+ key (and one time in four otherwise) the
+        // public JWK of ANOTHER stored Ed25519 key or a made-up one ("mismatched public key on sign")
+        let mismatched = own.as_ref().map(is_bls).unwrap_or(true) || t.chance(1, 4);
+        let pk = if mismatched {
+          if ed_others.is_empty() { made_up } else { ed_others[t.choose(ed_others.len())].clone() }
+        } else {
+          own.clone().unwrap()
+        };
         let data = format!("msg{step}").into_bytes();
         let r = storage.sign(&KeyId::new(id.clone()), &data, &pk).await;
-        out.trace.push(format!("op{step} sign({id}) -> {}", if r.is_ok() { "Ok" } else { "Err" }));
-        match (r, keys.contains_key(&id)) {
-          (Ok(sig), true) => {
-            if !verify(&keys[&id], &data, &sig) {
-              viol(&mut out, "C15.signature_verifies_under_own_key", "stronghold/sign/does-not-verify", format!("signature for {id} does not verify"));
+        out.trace.push(format!(
+          "op{step} sign({id}{}{}) -> {}",
+          if own.as_ref().map(is_bls).unwrap_or(false) { ", key id of a BBS+ key" } else { "" },
+          if mismatched { ", public JWK of another key" } else { "" },
+          if r.is_ok() { "Ok" } else { "Err" }
+        ));
+        match (r, own) {
+          (Ok(sig), Some(own)) => {
+            if is_bls(&own) {
+              viol(&mut out, "C15.signature_verifies_under_own_key", "stronghold/sign/bbs-key-id-signs-eddsa", format!("sign returned an EdDSA signature for {id}, the key id of a BBS+ key: it cannot verify under that key's public JWK"));
+            } else if !verify(&own, &data, &sig) || !verify_own(&own, &data, &sig) {
+              viol(&mut out, "C15.signature_verifies_under_own_key", "stronghold/sign/does-not-verify", format!("signature for {id} does not verify under its public JWK"));
             }
             for (o, k) in keys.iter() {
-              if *o != id && verify(k, &data, &sig) {
+              if *o != id && !is_bls(k) && (verify(k, &data, &sig) || verify_own(k, &data, &sig)) {
                 viol(&mut out, "C15.signature_verifies_under_no_other_key", "stronghold/sign/other-key", format!("verifies under {o}"));
               }
             }
           }
-          (Ok(_), false) => viol(&mut out, "C15.deleted_or_unknown_does_not_sign", "stronghold/sign/missing-key-signed", format!("sign succeeded for absent key id {id}")),
-          (Err(e), true) => viol(&mut out, "C15.sign_succeeds", "stronghold/sign/refused", format!("sign failed for present key {id}: {e}")),
-          (Err(_), false) => {}
+          (Ok(_), None) => viol(&mut out, "C15.deleted_or_unknown_does_not_sign", "stronghold/sign/missing-key-signed", format!("sign succeeded for absent key id {id}")),
+          // (a store may refuse a public JWK that is not the key's own)
+          (Err(e), Some(_)) if !mismatched => viol(&mut out, "C15.sign_succeeds", "stronghold/sign/refused", format!("sign failed for present key {id}: {e}")),
+          (Err(_), _) => {}
         }
       }
       3 => {
@@ -227,6 +321,84 @@ async fn history(storage: &StrongholdStorage, t: &mut Tape) -> Outcome {
         out.trace.push(format!("op{step} get_key_id(d{d}) -> {:?}", r.as_ref().ok().map(|k| k.as_str().to_owned())));
         if r.ok().map(|k| k.as_str().to_owned()) != digests.get(&d).cloned() {
           viol(&mut out, "C15.one_key_id_per_digest", "stronghold/get_key_id/wrong", format!("get_key_id(d{d}) differs from model {:?}", digests.get(&d)));
+        }
+      }
+      8 => {
+        let bad = t.chance(1, 4);
+        let (kt, alg) = if bad {
+          [("Ed25519", ProofAlgorithm::BLS12381_SHA256), ("BLS12381G2", ProofAlgorithm::SU_ES256), ("NoSuchType", ProofAlgorithm::BLS12381_SHA256)][t.choose(3)]
+        } else {
+          ("BLS12381G2", [ProofAlgorithm::BLS12381_SHA256, ProofAlgorithm::BLS12381_SHAKE256][t.choose(2)])
+        };
+        let r = storage.generate_bbs(KeyType::new(kt), alg).await;
+        out.trace.push(format!("op{step} generate_bbs({kt},{alg}) -> {}", if r.is_ok() { "Ok" } else { "Err" }));
+        match r {
+          Ok(o) => {
+            let id = o.key_id.as_str().to_owned();
+            let v = serde_json::to_value(&o.jwk).unwrap();
+            if bad {
+              viol(&mut out, "C15.generate_requires_compatible_alg", "stronghold/generate_bbs/accepted", format!("generate_bbs({kt},{alg}) succeeded"));
+            }
+            if v.get("d").is_some() {
+              viol(&mut out, "C15.generate_public_only", "stronghold/generate_bbs/private-member", "generate_bbs returned private members".into());
+            }
+            if v["alg"].as_str() != Some(alg.to_string().as_str()) {
+              viol(&mut out, "C15.generate_alg_as_requested", "stronghold/generate_bbs/alg", format!("alg {:?}, requested {alg}", v["alg"]));
+            }
+            if issued.contains(&id) {
+              viol(&mut out, "C15.generate_fresh_key_id", "stronghold/generate_bbs/reused-id", format!("key id {id} issued twice"));
+            }
+            issued.push(id.clone());
+            keys.insert(id, o.jwk);
+          }
+          Err(e) => {
+            if !bad {
+              viol(&mut out, "C15.generate_succeeds", "stronghold/generate_bbs/refused", format!("generate_bbs failed: {e}"));
+            }
+          }
+        }
+      }
+      9 => {
+        // sign_bbs: for a BBS+ key id with its own public JWK, with the public JWK of another stored BBS+ key, or for the
+        // key id of an Ed25519 key / an absent key id with the public JWK of some stored BBS+ key
+        let id = pick_id(t, &issued);
+        let bls: Vec<(String, Jwk)> = keys.iter().filter(|(_, k)| is_bls(k)).map(|(o, k)| (o.clone(), k.clone())).collect();
+        if bls.is_empty() {
+          out.trace.push(format!("op{step} sign_bbs skipped (no BBS+ key stored)"));
+          continue;
+        }
+        let own = keys.get(&id).cloned();
+        let own_is_bls = own.as_ref().map(is_bls).unwrap_or(false);
+        let pk = if own_is_bls && !t.chance(1, 3) { own.clone().unwrap() } else { bls[t.choose(bls.len())].1.clone() };
+        let pk_is_own = own.as_ref().map(|o| serde_json::to_value(o).ok() == serde_json::to_value(&pk).ok()).unwrap_or(false);
+        let messages = vec![format!("m{step}").into_bytes(), b"second".to_vec()];
+        let header = b"hdr".to_vec();
+        let r = storage.sign_bbs(&KeyId::new(id.clone()), &messages, &header, &pk).await;
+        out.trace.push(format!(
+          "op{step} sign_bbs({id}{}{}) -> {}",
+          if own.is_some() && !own_is_bls { ", key id of an Ed25519 key" } else { "" },
+          if pk_is_own { "" } else { ", public JWK of another key" },
+          if r.is_ok() { "Ok" } else { "Err" }
+        ));
+        let sha256 = serde_json::to_value(&pk).ok().map(|v| v["alg"] == ProofAlgorithm::BLS12381_SHA256.to_string().as_str()).unwrap_or(false);
+        match (r, own) {
+          (Ok(sig), Some(own)) => {
+            if !own_is_bls {
+              viol(&mut out, "C15.signature_verifies_under_own_key", "stronghold/sign_bbs/ed25519-key-id-signs-bbs", format!("sign_bbs returned a signature for {id}, the key id of an Ed25519 key"));
+            } else if sha256 && !bbs_verify(&own, &messages, &header, &sig) {
+              viol(&mut out, "C15.signature_verifies_under_own_key", "stronghold/sign_bbs/does-not-verify", format!("BBS+ signature for {id} does not verify under its public JWK"));
+            }
+            if sha256 {
+              for (o, k) in bls.iter() {
+                if *o != id && bbs_verify(k, &messages, &header, &sig) {
+                  viol(&mut out, "C15.signature_verifies_under_no_other_key", "stronghold/sign_bbs/other-key", format!("verifies under {o}"));
+                }
+              }
+            }
+          }
+          (Ok(_), None) => viol(&mut out, "C15.deleted_or_unknown_does_not_sign", "stronghold/sign_bbs/missing-key-signed", format!("sign_bbs succeeded for absent key id {id}")),
+          (Err(e), Some(_)) if pk_is_own => viol(&mut out, "C15.sign_succeeds", "stronghold/sign_bbs/refused", format!("sign_bbs failed for present key {id} with its own public JWK: {e}")),
+          (Err(_), _) => {}
         }
       }
       _ => {
